@@ -12,7 +12,7 @@
    Integers are unbounded Z; every index computation is explicit; every Rust panic site (slice indexing,
    usize +/- under overflow-checks, copy_within range checks) is an explicit panic outcome. *)
 From Coq Require Import ZArith List Bool.
-From FV Require Import Lib.RustInt.
+From FV Require Import Lib.RustInt C02.IftModel C02.IftSbs.
 Import ListNotations.
 Open Scope Z_scope.
 
@@ -893,7 +893,10 @@ Inductive ccase :=
 | CaseVS (ped : bool) (init : list Z) (ops : list vop) (obs : list (Z * Z * Z)) (final_len : Z) (final : list Z)
 | CaseCS (ops : list cop) (obs : list (Z * Z * Z))
 | CaseRun (cvt_len cap nfdefs : Z) (fpgm prep : list Z) (obs : Z * Z * Z * Z)
-| CaseComp (glyphs : list gkind) (gid : Z) (get_code draw_code : Z).
+| CaseComp (glyphs : list gkind) (gid : Z) (get_code draw_code : Z)
+| CaseF1 (maxe maxg first : Z) (gentries gids bitmap : list Z) (pf : Z) (recs : option (list (Z * Z * Z)))
+         (data : list Z) (feats : option (list Z)) (obs : Z * list Z)
+| CaseF2 (default_fmt entry_count entries_offset : Z) (data : list Z) (obs : Z * list (Z * Z * Z)).
 
 Definition zlist_eqb (a b : list Z) : bool :=
   (Nat.eqb (length a) (length b)) && forallb (fun p => Z.eqb (fst p) (snd p)) (combine a b).
@@ -932,4 +935,17 @@ Definition check_case (c : ccase) : bool :=
       let g := glyph_lookup glyphs in
       (load_code (fst (outline g gid)) =? get_code) &&
       ((get_code =? 1) || (load_code (fst (load g 0 gid)) =? draw_code))
+  | CaseF1 maxe maxg first gentries gids bitmap pf recs data feats obs =>
+      match f1_intersect maxe maxg first gentries gids bitmap pf recs data feats with
+      | F1Ok ids => (fst obs =? 0) && zlist_eqb ids (snd obs)
+      | F1Err => fst obs =? 1
+      | F1Panic => fst obs =? 2
+      end
+  | CaseF2 default_fmt entry_count entries_offset data obs =>
+      match f2_decode sbs_c14 default_fmt entry_count entries_offset data with
+      | F2Ok es => (fst obs =? 0) && list_eqb z3_eqb (f2_visible es) (snd obs)
+      | F2Err => fst obs =? 1
+      | F2Panic => fst obs =? 2
+      | F2OutOfFuel => false
+      end
   end.
